@@ -571,6 +571,37 @@ func catalogue() []entry {
 		},
 		func(w *W) *T { return Release(w.Vals[2].Val, "rd-release") },
 		4, Expect{Touched: []string{"es__ssvk_"}})
+	// the same verdict and release on a YOUNG chain: with main-net options the vote window (BlockVotesDiff) is 1000
+	// blocks and more, so every short history of a new chain - and of any chain right after governance widened the
+	// window - lies inside the first window, where the missed-votes scan of BeginBlock returns early. The scaled-down
+	// worlds (window of 3 blocks) leave that regime at block 4. (Added after a seeded change - the in-memory list of
+	// excluded validators rebuilt on the full-scan path only, so that a released validator stayed excluded on a
+	// running node but not on a restarted one - escaped every crash point of every history.)
+	youngWorld := func(name string) func() *harness.World {
+		return func() *harness.World {
+			w := harness.NewWorld("stk-"+name, 4, 3)
+			w.Gov.EvidenceOptions.BlockVotesDiff = 1000
+			w.Gov.EvidenceOptions.MinVotesRequired = 700
+			return w
+		}
+	}
+	add(action.ALLEGATION_VOTE, "vote-yes-guilty-verdict-on-a-chain-younger-than-the-vote-window", youngWorld("vote-guilty-young"),
+		guiltyPrefix("vy"),
+		func(w *W) *T { return AllegationVote(reqID, w.Vals[1].Val, Yes, "vy-v2") },
+		4, Expect{Touched: []string{"es__ark_", "es__ssvk_", "st__t_"}})
+	add(action.RELEASE, "release-after-guilty-on-a-chain-younger-than-the-vote-window", youngWorld("release-guilty-young"),
+		func(w *W) []B {
+			return seq(guiltyPrefix("ry")(w), one(blk(AllegationVote(reqID, w.Vals[1].Val, Yes, "ry-v2"))),
+				empties(1), one(harness.BlockSpec{Dt: 25 * time.Hour}))
+		},
+		func(w *W) *T { return Release(w.Vals[2].Val, "ry-release") },
+		5, Expect{
+			Touched: []string{"es__ssvk_"},
+			Final: func(x *harness.Run) error {
+				v := x.W.Vals[2]
+				return firstErr(wantContains(x, kStatus(v.Val.Addr), `"isActive":true`), wantTM(x, v, true))
+			},
+		})
 	add(action.RELEASE, "release-after-missed-votes", missedVotesWorld("release-missed"),
 		func(w *W) []B {
 			// V3 misses the commits seen by blocks 4 and 5: 1 signature in the window (3,4,5) < 2 => frozen in
